@@ -117,6 +117,50 @@ def _has_quantifier(t, _memo={}):
     return r
 
 
+def _plain(t):
+    """no Boolean structure / ite / div / mod inside a trigger candidate"""
+    if z3.is_app(t):
+        k = t.decl().kind()
+        if k in (z3.Z3_OP_ITE, z3.Z3_OP_IDIV, z3.Z3_OP_MOD, z3.Z3_OP_DIV, z3.Z3_OP_AND, z3.Z3_OP_OR, z3.Z3_OP_NOT,
+                 z3.Z3_OP_EQ, z3.Z3_OP_LE, z3.Z3_OP_LT, z3.Z3_OP_GE, z3.Z3_OP_GT, z3.Z3_OP_MUL):
+            return False
+    return all(_plain(c) for c in t.children())
+
+
+def _patterns(body, vs):
+    """Alternative single triggers for a universally quantified clause: every application of an uninterpreted
+    function (or array read) that mentions all bound variables.  z3's own choice sometimes settles on one trigger
+    (e.g. d(i)) that never matches the ground terms of the goal."""
+    ids = {v.get_id() for v in vs}
+    found, seen = [], set()
+
+    def mentions(t):
+        if t.get_id() in ids:
+            return {t.get_id()}
+        out = set()
+        for c in t.children():
+            out |= mentions(c)
+        return out
+
+    def walk(t):
+        if t.get_id() in seen or z3.is_quantifier(t):
+            return
+        seen.add(t.get_id())
+        if z3.is_app(t) and t.num_args() > 0:
+            k = t.decl().kind()
+            if k in (z3.Z3_OP_UNINTERPRETED, z3.Z3_OP_SELECT) and mentions(t) == ids and _plain(t):
+                found.append(t)
+            for c in t.children():
+                walk(c)
+    walk(body)
+    # drop triggers that are proper subterms of another trigger's arguments only if identical; keep at most 6
+    uniq = []
+    for t in found:
+        if not any(t.eq(u) for u in uniq):
+            uniq.append(t)
+    return uniq[:6]
+
+
 class Run:
     def __init__(self, prefix):
         self.prefix, self.taken, self.alts, self.counts = list(prefix), [], [], {}
@@ -588,6 +632,8 @@ class Engine:
         self.havoc_loop(n, lc)
         for label, inv in lc.inv():
             self.assume(self.spec(inv))
+        for label, inst in lc.instances:
+            self.assume(self.spec(inst))
         g = self.truth(self.eval(n.test))
         if self.branch(g):
             self.loop_body(k, lc, n.body)
@@ -610,8 +656,8 @@ class Engine:
             return
         if step:
             step()
-        for g, upd in lc.ghost_update.items():
-            self.ghost_env[g] = self.spec(upd)
+        new_ghost = {g: self.ghost_update_value(upd) for g, upd in lc.ghost_update.items()}
+        self.ghost_env.update(new_ghost)
         for label, inv in lc.inv():
             self.oblige(f'loop{k}.preserve', label, self.spec(inv))
         var1 = [zint(self.spec(v)) for v in lc.variant]
@@ -621,6 +667,22 @@ class Engine:
         if lc.variant:
             self.oblige(f'loop{k}.variant', 'decreases', dec)
         raise PathCut()
+
+    def ghost_update_value(self, text):
+        """`X if C else Y` ghost updates are resolved per path when the path condition decides C, so that the
+        ghost is a plain term (an ite inside a function argument defeats quantifier triggers)."""
+        e = ast.parse(text.strip(), mode='eval').body
+        if isinstance(e, ast.IfExp):
+            c = self.spec(ast.unparse(e.test))
+            if not isinstance(c, bool):
+                c = zbool(c)
+                if not self.feasible(z3.Not(c)):
+                    c = True
+                elif not self.feasible(c):
+                    c = False
+            if isinstance(c, bool):
+                return self.ghost_update_value(ast.unparse(e.body if c else e.orelse))
+        return self.spec(text)
 
     def unrolled_while(self, n):
         for _ in range(self.unroll + 1):
@@ -818,10 +880,10 @@ class Engine:
         self.modified_in(body + [ast.Expr(n.test)] if isinstance(n, ast.While) else body, names, attrs, set())
         for m in lc.extra_modifies:
             (attrs if '.' in m else names).add(m)
-        names |= set(lc.ghost)
+        names |= set(lc.ghost_update)        # ghosts without an update are constants fixed at loop entry
         done_objs = set()
         for name in sorted(names):
-            if name in lc.ghost:
+            if name in lc.ghost_update:
                 self.ghost_env[name] = self.havoc_value(self.ghost_env[name], name, lc)
                 continue
             sc = self.lookup_scope(name)
@@ -1471,9 +1533,17 @@ class Engine:
             recv.items.append(args[0])
             return None
         if isinstance(recv, ArrList) and name == 'append':
-            if isinstance(args[0], Obj):
-                args[0].frozen = True
-            new = recv.appended(args[0])
+            item = args[0]
+            if isinstance(item, Obj):
+                item.frozen = True
+                # a field the list declares as plain int must not hold None when the record is appended
+                vals = dict(item.f)
+                for f, srt in recv.fields.items():
+                    if not isinstance(srt, str) and isinstance(vals.get(f), Opt):
+                        self.oblige('safety', f'none:append.{f}', z3.Not(vals[f].isnone))
+                        vals[f] = vals[f].val
+                item = vals
+            new = recv.appended(item)
             if isinstance(e.func.value, ast.Name):
                 # a list is an object: the update is visible through the scope that holds the name (closures too)
                 (self.lookup_scope(e.func.value.id) or self.env)[e.func.value.id] = new
@@ -1836,7 +1906,15 @@ class Engine:
             finally:
                 self.env = saved
             rng = z3.And(*[(lo_v <= v) if hi_v is None else z3.And(lo_v <= v, v < hi_v) for v in vs])
-            return z3.ForAll(vs, z3.Implies(rng, body)) if ftxt == 'forall' else z3.Exists(vs, z3.And(rng, body))
+            if ftxt == 'exists':
+                return z3.Exists(vs, z3.And(rng, body))
+            pats = _patterns(body, vs)
+            while pats:
+                try:
+                    return z3.ForAll(vs, z3.Implies(rng, body), patterns=pats)
+                except z3.Z3Exception:
+                    pats = pats[:-1]        # z3 rejects some shapes (e.g. an ite inside a trigger): drop and retry
+            return z3.ForAll(vs, z3.Implies(rng, body))
         if ftxt == 'implies':
             return z3.Implies(zbool(self.eval(e.args[0])), zbool(self.eval(e.args[1])))
         if ftxt == 'old':
